@@ -205,7 +205,7 @@ func (p *FloatingIPPlugin) syncPodIPsIntoDB() {
 		return
 	}
 	for i := range pods {
-		if err := p.syncPodIP(pods[i]); err != nil {
+		if err := p.syncPodIP(pods[i], true); err != nil {
 			glog.Warning(err)
 		}
 	}
@@ -213,8 +213,9 @@ func (p *FloatingIPPlugin) syncPodIPsIntoDB() {
 
 // #lizard forgives
 // syncPodIP sync pod ip with ipam, if the pod has ipinfos annotation and the ip is unallocated in ipam, allocate the ip
-// to the pod
-func (p *FloatingIPPlugin) syncPodIP(pod *corev1.Pod) error {
+// to the pod. listed tells that the pod comes from a listed snapshot, which may be out of date by now: if the pod has been
+// deleted or replaced by a pod of the same name since, its ip may have been released and must not be allocated again
+func (p *FloatingIPPlugin) syncPodIP(pod *corev1.Pod, listed bool) error {
 	if pod.Status.Phase != corev1.PodRunning {
 		return nil
 	}
@@ -222,6 +223,11 @@ func (p *FloatingIPPlugin) syncPodIP(pod *corev1.Pod) error {
 		return nil
 	}
 	defer p.lockPod(pod.Name, pod.Namespace)()
+	if listed {
+		if cur, err := p.PodLister.Pods(pod.Namespace).Get(pod.Name); err != nil || cur.UID != pod.UID {
+			return nil
+		}
+	}
 	keyObj, err := util.FormatKey(pod)
 	if err != nil {
 		glog.V(5).Infof("sync pod %s/%s ip formatKey with error %v", pod.Namespace, pod.Name, err)
